@@ -266,6 +266,19 @@ class Driver:
             cols = [c for c in tab.dtype.names if c != "Drillhole"]
             prop_names = sorted({n for t in members.values() for n in t["props"]})
             rec.check("C04.table", sorted(cols) == sorted(list(next(iter(loc_names))) + prop_names), op=where, cls="columns", attr=amb, detail=f"table {pg!r} columns {cols}; model {list(next(iter(loc_names))) + prop_names}")
+            if len(prop_names) >= 2 and not amb and all(n in cols for n in prop_names):
+                # a selection of columns, asked for in another order than the table keeps them: each column under its own name
+                asked = tuple(reversed(prop_names))
+                try:
+                    sub = np.asarray(tables[pg].depth_table_by_name(asked))
+                    for n in asked:
+                        same = n in (sub.dtype.names or ()) and eq(np.asarray(sub[n].tolist(), dtype=object), np.asarray(tab[n].tolist(), dtype=object))
+                        rec.check("C04.table", same, op=where, cls="columns-by-name", attr="", detail=f"table {pg!r}: depth_table_by_name({asked}) column {n!r} = {short(repr(sub[n].tolist() if n in (sub.dtype.names or ()) else None), 120)}; the full table has {short(repr(tab[n].tolist()), 120)}")
+                    rec.see("column-selections-judged")
+                except Exception as exc:  # noqa: BLE001
+                    if not exc_origin(exc)[0]:
+                        raise
+                    rec.see("column-selection-refused:" + type(exc).__name__)
             for u in order:
                 if u not in members:
                     continue
